@@ -179,6 +179,19 @@ func runCtl(j Job) Outcome {
 					Key: map[string]interface{}{"max": j.Max, "busy": busyBefore}})
 			}
 		}
+		// ---- C03 oracle: "when all are busy it starts as soon as one result has been consumed" ----
+		// Between commands the loop is parked either in the pacer (PaceBlocked) or in the hand-off of a released hit. If
+		// it was in the hand-off with every worker busy and the consumer has now taken a result, the freed worker takes
+		// the pending hit: one more request reaches the transport.
+		if cmd == "R" && strings.HasPrefix(co, "g") && !before.PaceBlocked && !stopping && !failMode && !before.Closed && c.TargeterErrors() == 0 {
+			busyBefore := len(before.InTransport) + pendingSends(before, c)
+			if uint64(busyBefore) >= j.Max && len(o.InTransport) != len(before.InTransport)+1 {
+				out.Findings = append(out.Findings, Finding{Kind: "free_capacity_not_used",
+					What:     "every worker was busy and a released hit was waiting; a result has been consumed, yet the waiting hit did not start (no new request reached the transport)",
+					Expected: fmt.Sprint(len(before.InTransport) + 1), Observed: fmt.Sprint(len(o.InTransport)),
+					Key: map[string]interface{}{"max": j.Max, "busy": busyBefore, "after": "result consumed"}})
+			}
+		}
 		// hits started (the targeter was consulted) whose result the consumer has not taken yet
 		if started := c.TargeterCalls(); uint64(started-len(o.Delivered)) > j.Max {
 			out.Findings = append(out.Findings, Finding{Kind: "inflight_exceeds_max",
